@@ -844,6 +844,68 @@ pub fn gen_c05(o: &mut Out, tier: &str, seed: u64) {
             s.r = Scalar::ZERO; s.c2 = Scalar::from(a) * G; s.d2 = RistrettoPoint::identity();
             emit(o, &mut r, "ctct.zero-opening", "ctct", &s.wit(), 3);
         }
+        // honest statements whose fields coincide or combine two special features at once
+        {
+            // validity: features 0 = identity auditor key, 1 = zero opening, 2 = amount 0, 3 = amount MAX,
+            // 4 = all keys equal, 5 = opening 1, 6 = (batched) lo and hi identical; every pair of them
+            // (a zero amount with a zero opening gives an identity commitment, which the verifier refuses: skipped)
+            let build = |r: &mut Rng, n: usize, fs: &[usize]| -> Val {
+                let has = |f: usize| fs.contains(&f);
+                let mut ps: Vec<RistrettoPoint> = (0..n).map(|_| kp(r).p).collect();
+                if has(4) { let p0 = ps[0]; for p in ps.iter_mut() { *p = p0; } }
+                if has(0) { ps[n - 1] = RistrettoPoint::identity(); }
+                let amt = if has(2) { 0 } else if has(3) { u64::MAX } else { amount(r).max(1) };
+                let o = if has(1) { Scalar::ZERO } else if has(5) { Scalar::ONE } else { rand_scalar(r) };
+                Val { c: commit(&Scalar::from(amt), &o), ds: ps.iter().map(|p| o * p).collect(), r: o, amt, ps }
+            };
+            for f1 in 0..7usize {
+                for f2 in f1..7usize {
+                    let fs = [f1, f2];
+                    let has = |f: usize| fs.contains(&f);
+                    if (has(1) && has(2)) || (has(2) && has(3)) || (has(1) && has(5)) { continue; }
+                    if !th && (f1 * 7 + f2 + seed as usize) % 2 == 1 { continue; }
+                    for n in [2usize, 3] {
+                        if !has(6) {
+                            let s = build(&mut r, n, &fs);
+                            emit(o, &mut r, &format!("val.features.{}-{}", f1, f2), &format!("val{}", n), &s.wit(), 2);
+                        }
+                        let lo = build(&mut r, n, &fs);
+                        let hi = if has(6) { val_clone(&lo) } else {
+                            let mut h = build(&mut r, n, &fs);
+                            // lo and hi share the keys
+                            h.ps = lo.ps.clone(); h.ds = h.ps.iter().map(|p| h.r * p).collect();
+                            h
+                        };
+                        let s = BVal { lo, hi };
+                        emit(o, &mut r, &format!("bval.features.{}-{}", f1, f2), &format!("bval{}", n), &s.wit(), 2);
+                    }
+                }
+            }
+            // ct-ct equality: the same key pair on both sides; the very same ciphertext on both sides
+            let a = amount(&mut r);
+            let mut s = ctct_st(&mut r, a, a);
+            s.k2 = Kp { s: s.k1.s, p: s.k1.p }; s.d2 = s.r * s.k1.p;
+            emit(o, &mut r, "ctct.same-key", "ctct", &s.wit(), 3);
+            let mut s = ctct_st(&mut r, a, a);
+            s.k2 = Kp { s: s.k1.s, p: s.k1.p };
+            let o1 = rand_scalar(&mut r);
+            s.c1 = commit(&Scalar::from(a), &o1); s.d1 = o1 * s.k1.p; s.c2 = s.c1; s.d2 = s.d1; s.r = o1;
+            emit(o, &mut r, "ctct.same-ciphertext", "ctct", &s.wit(), 3);
+            // ct-commitment equality: the commitment is the ciphertext's own commitment (same opening)
+            let mut s = ctcmt_st(&mut r, a, a);
+            let o1 = rand_scalar(&mut r);
+            s.c = commit(&Scalar::from(a), &o1); s.d = o1 * s.k.p; s.cm = s.c; s.r = o1;
+            emit(o, &mut r, "ctcmt.same-commitment", "ctcmt", &s.wit(), 3);
+            // zero-ciphertext: opening 1; the key with secret 1 (P = H)
+            let mut s = zero_st(&mut r, &Scalar::ZERO);
+            s.c = *H; s.d = s.k.p;
+            emit(o, &mut r, "zero.opening-one", "zero", &s.wit(), 1);
+            let mut s = zero_st(&mut r, &Scalar::ZERO);
+            s.k = Kp { s: Scalar::ONE, p: *H };
+            let o1 = rand_nonzero(&mut r);
+            s.c = o1 * *H; s.d = o1 * *H;
+            emit(o, &mut r, "zero.key-one", "zero", &s.wit(), 1);
+        }
         // second ciphertext = identity for ct-ct equality (amount 0, opening 0)
         let mut z = ctct_st(&mut r, 0, 0);
         z.c2 = RistrettoPoint::identity();
